@@ -36,6 +36,8 @@ def run(ctx):
         refine.refine_batch(ctx, ctx.size(120, 1500), force=shaped, pid=PID, name="trace-refinement(Tree.step vs DemeTree.run)"),
         runs.minimize_slice(ctx, PID, ctx.size(12, 150)),
         runs.monitor_batch(ctx, PID, ctx.size(250, 3000), force=shaped),
+        # an objective with NaN holes (NaN is a legal value, ordered as worst): the property does not depend on it
+        runs.nan_monitor_batch(ctx, PID, ctx.size(30, 300), salt=57),
     ]
 
 
